@@ -7,7 +7,7 @@ Property theorems only (helper lemmas: `Proofs/BrokerFanout*.lean`).  Model:
 `srvSub`) over the retained trie of `Model/Topics.lean` and its finished
 theorems (`Properties/C06.lean`); specification: `Spec/Broker.lean`.
 -/
-import Mqtt.Proofs.BrokerFanoutRetained
+import Mqtt.Proofs.BrokerFanoutSub
 
 set_option linter.unusedSimpArgs false
 
@@ -15,7 +15,8 @@ namespace Mqtt.Properties.C08
 open Mqtt.Iface.Broker Mqtt.Model.Broker Mqtt.Proofs.Broker
 open Mqtt.Model.Topics (RMsg RNode)
 open Mqtt.Proofs.Topics (RWF absR good)
-open Mqtt.Spec.Match (split validName)
+open Mqtt.Spec.Match (split validName validFilter matchLevels)
+open Mqtt.Spec.Broker (subCode)
 
 def exConnect (c : Nat) (cid : Bytes) : Ev :=
   .first c (.connect { protoName := [77, 81, 84, 84], version := 4, clean := true, will := none, clientId := cid }) true
@@ -188,6 +189,191 @@ example :
     let b2 := (step b1 (pub [97, 47, 98] 0 [])).1
     (absR b1.topics.rroot).map retOf = [([[97]], ⟨[97], 0, [3]⟩), ([[97], [98]], ⟨[97, 47, 98], 0, [2]⟩)] ∧
     (absR b2.topics.rroot).map retOf = [([[97]], ⟨[97], 0, [3]⟩)] := by
+  decide
+
+/-! ### (h) a new subscription immediately receives exactly the matching retained messages -/
+
+/-- The SUBSCRIBE step without any hypothesis on the filters: after the SUBACK
+the connection is sent, per accepted filter in request order, the list
+`Retained(filter)` returned (`retainedOf`), each stored message `r` as
+`retainedPub r granted`: stored topic, payload, DUP and RETAIN flag, QoS
+min(stored, granted), the stored identifier (none at QoS 0).  Nothing else is
+written.  (`htop`: stored topics are non-empty - true of everything stored for a
+valid topic name.) -/
+theorem C08_subscribe_delivers_retained (b : B) (hinv : Inv b) (c id : Nat) (topics : List (Bytes × Nat))
+    (hl : b.alive c = true) (htop : ∀ e ∈ absR b.topics.rroot, e.2.topic ≠ []) :
+    (packet b c (.subscribe id topics)).2 =
+      Out.send c (.suback id (topics.map (fun tq => modelCode tq.1 tq.2))) ::
+      topics.flatMap (fun tq =>
+        if accepts tq.1 tq.2 then
+          (retainedOf b.topics tq.1).map (fun r =>
+            Out.send c (.publish (retainedPub r (min tq.2 Mqtt.Generated.maxQosAllowed))))
+        else []) :=
+  packet_subscribe_out b hinv c id topics hl htop
+
+/-- For requests whose filters have no empty and no '$'-led level (findings
+B3/B4 are outside): the output of the SUBSCRIBE step is the SUBACK with the
+specification's codes, followed - per granted filter, in request order - by the
+stored retained messages whose path matches the filter under section 4.7, in
+some order within the filter (Go map iteration), each with RETAIN = 1, QoS
+min(stored QoS, granted QoS), topic and payload as stored. -/
+theorem C08_subscribe_delivers_retained_partial (b : B) (hinv : Inv b) (c id : Nat)
+    (topics : List (Bytes × Nat)) (hl : b.alive c = true)
+    (htop : ∀ e ∈ absR b.topics.rroot, e.2.topic ≠ []) (hg : ∀ tq ∈ topics, good tq.1 = true) :
+    (packet b c (.subscribe id topics)).2 =
+      Out.send c (.suback id (topics.map (fun tq => subCode tq.1 tq.2))) ::
+      topics.flatMap (fun tq =>
+        if subCode tq.1 tq.2 = 0x80 then []
+        else (retainedOf b.topics tq.1).map (fun r => Out.send c (.publish (retainedPub r (subCode tq.1 tq.2))))) ∧
+    ∀ tq ∈ topics, subCode tq.1 tq.2 ≠ 0x80 →
+      (retainedOf b.topics tq.1).Perm
+        (((absR b.topics.rroot).filter (fun e => matchLevels (split tq.1) e.1)).map (·.2)) ∧
+      ∀ r ∈ retainedOf b.topics tq.1, (retainedPub r (subCode tq.1 tq.2)).retain = true := by
+  constructor
+  · rw [packet_subscribe_out b hinv c id topics hl htop]
+    congr 1
+    · congr 2
+      apply List.map_congr_left
+      intro tq htq
+      exact modelCode_good tq.1 tq.2 (hg tq htq)
+    · apply Mqtt.Proofs.Topics.flatMap_congr'
+      intro tq htq
+      obtain ⟨c1, c2⟩ := subCode_granted tq.1 tq.2
+      rw [accepts_good tq.1 tq.2 (hg tq htq)]
+      cases hcond : (validFilter tq.1 && decide (tq.2 ≤ 2)) with
+      | false =>
+        rw [hcond] at c1
+        have : subCode tq.1 tq.2 = 0x80 := by simpa using c1
+        simp [this]
+      | true =>
+        rw [hcond] at c1
+        have : subCode tq.1 tq.2 ≠ 0x80 := by simpa using c1
+        rw [if_neg this, c2 hcond]
+        simp only [↓reduceIte]
+  · intro tq htq hcode
+    obtain ⟨c1, _⟩ := subCode_granted tq.1 tq.2
+    have hcond : (validFilter tq.1 && decide (tq.2 ≤ 2)) = true := by
+      rw [← c1]; simpa using hcode
+    have hv : validFilter tq.1 = true := by simp only [Bool.and_eq_true] at hcond; exact hcond.1
+    obtain ⟨l, h1, h2⟩ := retained_char_good b.topics tq.1 hinv.rwf (hg tq htq) hv
+    have hro : retainedOf b.topics tq.1 = l := by simp [retainedOf, h1]
+    rw [hro]
+    refine ⟨h2, ?_⟩
+    intro r hr
+    have := h2.mem_iff.mp hr
+    obtain ⟨e, he, rfl⟩ := List.mem_map.mp this
+    exact hinv.rflag e (List.mem_filter.mp he).1
+
+/-- Against the reference broker: if the retained trie holds exactly the
+specification's retained messages (`RetInv`, maintained by
+`C08_retain_refines_partial`), then for every granted good filter the messages
+sent for it are - DUP bit and packet identifier apart, which the specification
+leaves open - exactly `Spec.Broker.retainedFor`: the retained messages whose
+topic matches, RETAIN = 1, QoS min(stored, granted), payload as stored. -/
+theorem C08_subscribe_retained_spec_partial (b : B) (rets : List Mqtt.Spec.Broker.Ret)
+    (h : RetInv b.topics.rroot rets) (t : Bytes) (q : Nat)
+    (hg : good t = true) (hgr : subCode t q ≠ 0x80) :
+    ((retainedOf b.topics t).map (fun r => normPub (retainedPub r (subCode t q)))).Perm
+      (Mqtt.Spec.Broker.retainedFor { rets := rets } t (subCode t q)) := by
+  obtain ⟨c1, _⟩ := subCode_granted t q
+  have hcond : (validFilter t && decide (q ≤ 2)) = true := by
+    rw [← c1]; simpa using hgr
+  have hv : validFilter t = true := by simp only [Bool.and_eq_true] at hcond; exact hcond.1
+  exact retained_spec b.topics rets h t _ hg hv
+
+/-- the full statement of the matching clause: all valid filters -/
+def C08_subscribe_delivers_retained_full : Prop :=
+  ∀ (b : B) (t : Bytes), Inv b → validFilter t = true →
+    (retainedOf b.topics t).Perm (((absR b.topics.rroot).filter (fun e => matchLevels (split t) e.1)).map (·.2))
+
+/-- False of the code as it is (finding B3): the filter "/a" (first level
+empty) is walked as "+/a" and returns the message retained for "x/a". -/
+theorem C08_subscribe_delivers_retained_full_counterexample : ¬ C08_subscribe_delivers_retained_full := by
+  intro h
+  let b : B := (run {} [.srvPub { qos := 0, retain := true, topic := [120, 47, 97], payload := [1] }]).1
+  have := (h b [47, 97] (Inv_run _ _ Inv_init) (by decide)).length_eq
+  exact absurd this (by decide)
+
+/-- non-vacuity: retained "a/b" (QoS 1) and "a" (QoS 0) are stored; connection
+1 subscribes "a/+" at QoS 0, "a/#/x" (rejected), "#" at QoS 2 -/
+def exRetState : B :=
+  (run exState [.packet 2 (.publish { qos := 1, retain := true, topic := [97, 47, 98], pktid := 9, payload := [1] }),
+                .packet 2 (.publish { qos := 0, retain := true, topic := [97], payload := [2] })]).1
+
+example :
+    Inv exRetState ∧ exRetState.alive 1 = true ∧
+    (absR exRetState.topics.rroot).map retOf = [([[97]], ⟨[97], 0, [2]⟩), ([[97], [98]], ⟨[97, 47, 98], 1, [1]⟩)] ∧
+    (packet exRetState 1 (.subscribe 3 [([97, 47, 43], 0), ([97, 47, 35, 47, 120], 1), ([35], 2)])).2 =
+      [.send 1 (.suback 3 [0, 0x80, 2]),
+       .send 1 (.publish { qos := 0, retain := true, topic := [97, 47, 98], pktid := 0, payload := [1] }),
+       .send 1 (.publish { qos := 0, retain := true, topic := [97], pktid := 0, payload := [2] }),
+       .send 1 (.publish { qos := 1, retain := true, topic := [97, 47, 98], pktid := 9, payload := [1] })] := by
+  refine ⟨Inv_run _ _ (Inv_run _ _ Inv_init), by decide, by decide, by decide⟩
+
+/-! ### (i) in-process subscribers get the retained set at subscribe time -/
+
+/-- `Server.Subscribe(filter, qos, callback)`: a rejected request returns an
+error and calls nothing; an accepted one calls the callback once per message
+`Retained(filter)` returned, with the stored topic, payload, RETAIN flag and
+QoS min(stored, granted) - and nothing else happens.  For a filter without
+empty and '$'-led levels these are exactly the stored messages whose path
+matches the filter under section 4.7, all with RETAIN = 1. -/
+theorem C08_srvSub_delivers_retained_partial (b : B) (hinv : Inv b) (cb : Nat) (f : Bytes) (q : Nat)
+    (hg : good f = true) :
+    (srvSub b cb f q).2 =
+      (if subCode f q = 0x80 then [.apiErr]
+       else (retainedOf b.topics f).map (fun r => Out.call cb (retainedCall r (subCode f q)))) ∧
+    (subCode f q ≠ 0x80 →
+      (retainedOf b.topics f).Perm
+        (((absR b.topics.rroot).filter (fun e => matchLevels (split f) e.1)).map (·.2)) ∧
+      ∀ r ∈ retainedOf b.topics f, (retainedCall r (subCode f q)).retain = true) := by
+  obtain ⟨c1, c2⟩ := subCode_granted f q
+  constructor
+  · rw [(srvSub_char b cb f q).1, accepts_good f q hg]
+    cases hcond : (validFilter f && decide (q ≤ 2)) with
+    | false =>
+      rw [hcond] at c1
+      have : subCode f q = 0x80 := by simpa using c1
+      simp [this]
+    | true =>
+      rw [hcond] at c1
+      have : subCode f q ≠ 0x80 := by simpa using c1
+      rw [if_neg this, c2 hcond]
+      simp only [↓reduceIte]
+  · intro hcode
+    have hcond : (validFilter f && decide (q ≤ 2)) = true := by
+      rw [← c1]; simpa using hcode
+    have hv : validFilter f = true := by simp only [Bool.and_eq_true] at hcond; exact hcond.1
+    obtain ⟨l, h1, h2⟩ := retained_char_good b.topics f hinv.rwf hg hv
+    have hro : retainedOf b.topics f = l := by simp [retainedOf, h1]
+    rw [hro]
+    refine ⟨h2, ?_⟩
+    intro r hr
+    have := h2.mem_iff.mp hr
+    obtain ⟨e, he, rfl⟩ := List.mem_map.mp this
+    exact hinv.rflag e (List.mem_filter.mp he).1
+
+/-- the callback's subscription itself is in the trie afterwards (and nothing else changed) -/
+theorem C08_srvSub_effect (b : B) (hinv : Inv b) (cb : Nat) (f : Bytes) (q : Nat) :
+    Inv (srvSub b cb f q).1 ∧
+    (Mqtt.Proofs.Topics.abs (srvSub b cb f q).1.topics.sroot).Perm
+      (if accepts f q then
+        addEntry (Mqtt.Proofs.Topics.abs b.topics.sroot) (Mqtt.Model.Topics.levels f).1 cb
+          (min q Mqtt.Generated.maxQosAllowed)
+       else Mqtt.Proofs.Topics.abs b.topics.sroot) ∧
+    (srvSub b cb f q).1.topics.rroot = b.topics.rroot := by
+  refine ⟨Inv_srvSub b cb f q hinv, ?_, ?_⟩
+  · rw [(srvSub_char b cb f q).2]
+    exact subscribe_abs b.topics f q cb hinv.wf
+  · rw [(srvSub_char b cb f q).2]
+    exact subscribe_rroot _ _ _ _ _
+
+/-- non-vacuity: callback 1001 subscribes "a/#" at QoS 0 and is called with both retained messages -/
+example :
+    (srvSub exRetState 1001 [97, 47, 35] 0).2 =
+      [.call 1001 { qos := 0, retain := true, topic := [97], pktid := 0, payload := [2] },
+       .call 1001 { qos := 0, retain := true, topic := [97, 47, 98], pktid := 9, payload := [1] }] ∧
+    (srvSub exRetState 1001 [97, 47, 35, 98] 0).2 = [.apiErr] := by
   decide
 
 end Mqtt.Properties.C08
